@@ -18,6 +18,46 @@ func init() { streams["c17"] = runC17 }
 
 
 func (c *Ctx) mat4() mat.Matrix4x4 {
+	if c.Rng.Intn(6) == 0 {
+		// STRUCTURED matrices: where a special-case shortcut would sit — identity, identity plus a few entries
+		// (any row, incl. the bottom one), diagonal, permutation-like, sparse, symmetric, affine
+		var a [16]float64
+		for i := 0; i < 4; i++ {
+			a[5*i] = 1
+		}
+		switch c.Rng.Intn(6) {
+		case 0: // identity with 1..3 extra off-diagonal entries anywhere
+			for n := 1 + c.Rng.Intn(3); n > 0; n-- {
+				i := c.Rng.Intn(16)
+				if i%5 != 0 {
+					a[i] = c.fl()
+				}
+			}
+		case 1: // identity except the bottom row
+			a[12], a[13], a[14] = c.fl(), c.fl(), c.fl()
+			if c.Rng.Intn(2) == 0 {
+				a[13], a[14] = 0, 0
+			}
+		case 2: // diagonal
+			for i := 0; i < 4; i++ {
+				a[5*i] = c.fl()
+			}
+		case 3: // affine: bottom row 0 0 0 1
+			for i := 0; i < 12; i++ {
+				a[i] = c.fl()
+			}
+		case 4: // symmetric
+			for i := 0; i < 4; i++ {
+				for j := i; j < 4; j++ {
+					v := c.fl()
+					a[4*i+j], a[4*j+i] = v, v
+				}
+			}
+		default: // exact identity
+		}
+		c.Note("mat.structured")
+		return mat.Matrix4x4{a[0], a[1], a[2], a[3], a[4], a[5], a[6], a[7], a[8], a[9], a[10], a[11], a[12], a[13], a[14], a[15]}
+	}
 	return mat.Matrix4x4{c.fl(), c.fl(), c.fl(), c.fl(), c.fl(), c.fl(), c.fl(), c.fl(), c.fl(), c.fl(), c.fl(), c.fl(), c.fl(), c.fl(), c.fl(), c.fl()}
 }
 
